@@ -7,6 +7,7 @@ ROOT = os.path.normpath(os.path.join(os.path.dirname(os.path.abspath(__file__)),
 sys.path.insert(0, os.path.join(ROOT, "lib"))
 import vunit
 import kunit
+import inventory
 from rsx import ExtractError
 
 REPO = os.environ.get("VERIF_REPO", "/repo")
@@ -220,6 +221,14 @@ def decide(pid, tier, seed):
                 futs.append(ex.submit(kunit.run_kani_unit, u, os.path.join(scratch, "k_" + u), tier, seed, REPO, pid))
             for f in futs:
                 results.append(f.result())
+        # entry points (trait-impl methods, pub functions) that appeared in a file this property's units read after the
+        # contracts were written: an operation nobody argued about -> the answer cannot be "holds"
+        inv = UnitResult("inventory", "inventory")
+        props = [json.loads(l) for l in open(os.path.join(ROOT, "properties.jsonl"))]
+        for e in inventory.new_entry_points(pid, REPO, cfg, props):
+            inv.undecided.append(f"new entry point without a contract: {e} (not in inventory.json; the per-operation argument for {pid} does not cover it)")
+        inv.cmd = "lib/inventory.py: entry points of the files read by this property's units vs. inventory.json"
+        results.append(inv)
         return report(pid, tier, seed, pc, results, time.time() - t0, scratch)
     finally:
         shutil.rmtree(scratch, ignore_errors=True)
